@@ -1004,6 +1004,29 @@ impl Scenario for C09 {
                 b.push(Step::Offer { text: TextRef::Lit { text: format!("k3.public.{}", b64(&compact)) }, faults: vec![], reader: bk, artifact: art, expect: None, why: String::new() });
             }
         }
+        // Ed25519: encodings that are not the canonical one of their point (y written as y + p, which fits for
+        // y < 19; x = 0 with the sign bit set): whoever accepts one must print it back unchanged
+        if matches!(f, 2 | 4) && matches!(art, Artifact::KeyPublic | Artifact::KeyPkePublic) {
+            let p = (num_bigint_dig::BigUint::from(1u8) << 255) - num_bigint_dig::BigUint::from(19u8);
+            let mut encs: Vec<Vec<u8>> = Vec::new();
+            for k in 0..19u32 {
+                let mut le = (&p + num_bigint_dig::BigUint::from(k)).to_bytes_le();
+                le.resize(32, 0);
+                encs.push(le.clone());
+                le[31] |= 0x80;
+                encs.push(le);
+            }
+            for h in ["0100000000000000000000000000000000000000000000000000000000000080", "ecffffffffffffffffffffffffffffffffffffffffffffffffffffffffffffffff"] {
+                encs.push(hex::decode(h).unwrap());
+            }
+            for e in encs {
+                b.push(Step::Offer { text: TextRef::Lit { text: format!("k{f}.public.{}", b64(&e)) }, faults: vec![], reader: bk, artifact: art, expect: None, why: String::new() });
+                let slot = b.key_slot();
+                b.push(Step::KeyFromRaw { slot, family: f, kind: if art == Artifact::KeyPublic { Kind::Public } else { Kind::PkePublic }, bytes: Bytes::hex(&e) });
+                b.push(Step::KeyCheck { node: 0, slot });
+                b.push(Step::Id { node: 0, slot });
+            }
+        }
         if f == 1 {
             let pem = match art {
                 Artifact::KeySecret => Some(crate::fixtures::RSA2048[1].0),
